@@ -6,6 +6,8 @@
    one ordered map (lib/OMap.v), which is the specification's state. *)
 From Coq Require Import ZArith List Bool.
 From ELA Require Import lib.OMap model.C16_Ffldb proof.C16_Ffldb.
+(* the correspondence checker is rebuilt together with the theorems *)
+From ELA Require corr.C16_corr.
 Import ListNotations.
 Local Open Scope Z_scope.
 
@@ -75,6 +77,33 @@ Theorem C16_cursor_sorted_complete : forall t id, tx_ok t ->
   (forall n v, In (n, v) (bucket_subs t id) <-> fetch t (bidx_key id n) = Some v).
 Proof. exact cursor_sorted_complete. Qed.
 Print Assumptions C16_cursor_sorted_complete.
+
+(* The cursor's own algorithm (one iterator over the snapshot, one over the
+   pending keys, chooseIterator / skipPendingUpdates; model cur_step).
+   KNOWN FINDING Cursor:direction-change: when the cursor reverses direction
+   only the current sub-iterator is moved back, so it reports a wrong key.
+   Witness (replayed on the Go code by the harness on every run): snapshot keys
+   1,3,ff, pending keys 2,3\0; First Next Next Prev reports 3\0 instead of 2. *)
+Theorem C16_cursor_reverse_refuted :
+  exists db pend skip ss,
+    monotone ss = false /\
+    cur_run db pend skip cur_init ss <> spec_run [[1]; [2]; [3]; [3; 0]; [255]] None ss /\
+    db = [[1]; [3]; [255]] /\ pend = [[2]; [3; 0]] /\ ss = [CFirst; CNext; CNext; CPrev].
+Proof. exact cursor_reverse_refuted. Qed.
+Print Assumptions C16_cursor_reverse_refuted.
+
+(* Without reversal (side condition: the walk is First Next* or Last Prev*,
+   [monotone]) the cursor is the ordered walk of the merged keys, exhaustion
+   included: swept over every assignment of the 5 keys 1,2,3,3\0,ff to
+   snapshot / pending / removed (2^15 configurations, the bound is in the
+   statement). *)
+Theorem C16_cursor_monotone_partial : forall md mp mr,
+  0 <= md < 32 -> 0 <= mp < 32 -> 0 <= mr < 32 ->
+  monotone (CFirst :: repeat CNext 6) = true /\ monotone (CLast :: repeat CPrev 6) = true /\
+  cursor_agrees U5 md mp mr (CFirst :: repeat CNext 6) = true /\
+  cursor_agrees U5 md mp mr (CLast :: repeat CPrev 6) = true.
+Proof. exact (fun md mp mr a b c => conj eq_refl (conj eq_refl (cursor_monotone_sweep md mp mr a b c))). Qed.
+Print Assumptions C16_cursor_monotone_partial.
 
 (* Non-vacuity: a history with a reader that keeps its snapshot across a
    commit, a rollback, a flushing and a non-flushing commit is admissible, and
